@@ -1,5 +1,5 @@
 (* C07 — unspentcsvdump lists exactly the unspent, address-bearing outputs of the range. Pinned statements only: each theorem is closed by `exact` of a lemma proved in theories/. *)
-From RBP Require Import Bytes Hashes Wire Block BlockP Render Index IndexP Model ModelP StoreP CsvP CbP.
+From RBP Require Import Bytes Hashes Wire Block BlockP Render Index IndexP Model ModelP StoreP CsvP CbP AddrClean.
 From RBP Require Drive Merkle Utxo Stats OutProto Reader Published Misc.
 
 Theorem C07_final_is_last_touch :
@@ -34,6 +34,10 @@ Theorem C07_generic_last_touch :
   forall (K V : Type) (keqb : K -> K -> bool), (forall a b : K, reflect (a = b) (keqb a b)) -> forall (k : K) (evs : list (Utxo.event K V)), Utxo.lookup K V keqb k (Utxo.run K V keqb evs) = Utxo.last_touch K V keqb k evs None.
 Proof. exact Utxo.fold_last_touch. Qed.
 
+Theorem C07_address_never_contains_separator :
+  forall (c : coin) (script : bytes) (a : list N), e_addr (eval_script c script) = Some a -> clean a.
+Proof. exact address_clean. Qed.
+
 Print Assumptions C07_final_is_last_touch.
 Print Assumptions C07_nothing_listed_twice.
 Print Assumptions C07_listed_iff.
@@ -42,3 +46,4 @@ Print Assumptions C07_only_address_bearing.
 Print Assumptions C07_key_decode.
 Print Assumptions C07_key_injective.
 Print Assumptions C07_generic_last_touch.
+Print Assumptions C07_address_never_contains_separator.
